@@ -175,10 +175,12 @@ impl<'a> Compiler<'a> {
             hash_key: n.handle,
             arity: n.arguments.len() as u32,
         };
-        if self.jump_table.contains(n.name.as_ref()) {
+        // functions are keyed by their full name, the same short name may appear in several modules
+        let full_name = n.full_name();
+        if self.jump_table.contains(full_name.as_str()) {
             return Err(self.error(CompilationErrorPayload::DuplicateName(n.name.to_string())));
         }
-        self.jump_table.insert(n.full_name(), metadata).unwrap();
+        self.jump_table.insert(full_name, metadata).unwrap();
         Ok(())
     }
 
